@@ -710,6 +710,27 @@ func c10DoRec13(v *c10Vec, rng *mrand.Rand, r *c10Res, suites map[string]c10Suit
 	}
 }
 
+// c10CCMSelfTest checks the harness CCM against RFC 3610 packet vector #1.
+func c10CCMSelfTest() string {
+	key, _ := hex.DecodeString("c0c1c2c3c4c5c6c7c8c9cacbcccdcecf")
+	nonce, _ := hex.DecodeString("00000003020100a0a1a2a3a4a5")
+	aad, _ := hex.DecodeString("0001020304050607")
+	pt, _ := hex.DecodeString("08090a0b0c0d0e0f101112131415161718191a1b1c1d1e")
+	want, _ := hex.DecodeString("588c979a61c663d2f066d0c2c0f989806d5f6b61dac38417e8d12cfdf926e0")
+	a, err := c10NewAEAD("ccm", key, 8)
+	if err != nil {
+		return err.Error()
+	}
+	if got := a.Seal(nonce, pt, aad); !bytes.Equal(got, want) {
+		return "harness CCM fails RFC 3610 packet vector #1: " + hex.EncodeToString(got)
+	}
+	if back, ok := a.Open(nonce, want, aad); !ok || !bytes.Equal(back, pt) {
+		return "harness CCM does not open RFC 3610 packet vector #1"
+	}
+
+	return ""
+}
+
 // TestVerifC10Vectors is the entry point (see file comment).
 func TestVerifC10Vectors(t *testing.T) { //nolint:cyclop
 	in, out := os.Getenv("VERIF_IN"), os.Getenv("VERIF_OUT")
@@ -748,6 +769,10 @@ func TestVerifC10Vectors(t *testing.T) { //nolint:cyclop
 		}
 	}
 	total, nviol, nlay := 0, 0, 0
+	if msg := c10CCMSelfTest(); msg != "" {
+		nlay++
+		_ = enc.Encode(map[string]any{"i": -1, "k": "selftest", "layout": []string{msg}})
+	}
 	for i, v := range vecs {
 		if journal != "" {
 			_ = os.WriteFile(journal, []byte(strconv.Itoa(i)), 0o600)
